@@ -25,6 +25,9 @@ RULE = (
     "the one taken when it entered the pool, and every member must still equal a relation rebuilt from the same "
     "named sequence on the same leaves, with equal hash; every factory-built relation must be hashable.  Non-trivial "
     "= history with >= 10 effective steps; distinct = multiset of step kinds x pool size bucket."
+    "  Binary steps include Join objects with explicit max_columns applied directly or through Join.partial(fixed, "
+    "is_lhs) - also across engines, and (directed) onto a projection of a transfer with a fixed operand ending in "
+    "a calculation; leaves may hold lazily chained payloads, whose content is fingerprinted by iterating them. "
 )
 ASSUMPTIONS = [
     "materializations and leaves are explicitly named (auto-generated names are unique per call by design)",
